@@ -8464,7 +8464,7 @@ _command_match = re.compile(r"\s*([A-Za-z0-9_$-]+)\s*", re.ASCII).match
 
 # An identifier/keyword after the first token. Also eats trailing whitespace.
 # '$' is included to detect identifiers containing macro expansions.
-_id_keyword_match = re.compile(r"([A-Za-z0-9_$/.-]+)\s*", re.ASCII).match
+_id_keyword_match = re.compile(r"([0-9]*\.?[0-9]+[eE]\+[0-9]+|[A-Za-z0-9_$/.-]+)\s*", re.ASCII).match
 
 # A fragment in the left-hand side of a preprocessor variable assignment. These
 # are the portions between macro expansions ($(foo)). Macros are supported in
